@@ -160,6 +160,21 @@ pub fn check(case: &C10Case, st: &mut Stats) -> Verdict {
             ("kb_jwt absent / string", render_ex(&t.parts, Fmt::Json, KbRender::Absent, &[])),
             ("kb_jwt null when absent", render_ex(&t.parts, Fmt::Json, KbRender::Null, &[])),
             ("extra unknown members", render_ex(&t.parts, Fmt::Json, KbRender::Absent, &[("x_unknown".to_string(), json!({"a": [1, 2]})), ("typ".to_string(), json!("sd+jwt"))])),
+            // members named like those of the general JWS JSON serialisation, carrying look-alikes
+            // of the envelope's own members: unknown to this format, hence without effect
+            (
+                "extra members header / signatures / unprotected shadowing the envelope",
+                render_ex(
+                    &t.parts,
+                    Fmt::Json,
+                    KbRender::Absent,
+                    &[
+                        ("header".to_string(), json!({"alg": "none", "disclosures": [b64e(br#"["salt", "injected", true]"#)], "kb_jwt": "e30.e30.AAAA", "protected": "e30", "payload": "e30", "signature": "AAAA"})),
+                        ("unprotected".to_string(), json!({"disclosures": [], "kb_jwt": null})),
+                        ("signatures".to_string(), json!([{"protected": "e30", "signature": "AAAA", "header": {"disclosures": []}}])),
+                    ],
+                ),
+            ),
         ];
         let compact = match compact {
             Some(c) if t.parts.jwt.matches('.').count() == 2 => c,
@@ -243,6 +258,48 @@ pub fn check(case: &C10Case, st: &mut Stats) -> Verdict {
                     }
                     // a holder panic on odd input is C07's subject
                     _ => st.label("holder_pair_panicked(ignored)"),
+                }
+                // ... and with key binding requested the two presentations are equally acceptable:
+                // same selection (members in the given and in reverse order) through both holders,
+                // each result verified in its own form
+                if t.honest && t.parts.kb.is_none() && spec.holder.is_some() {
+                    let k = KbArgs { default_alg: false, aud: "https://verifier.example/pair".into(), nonce: "pair-nonce".into(), key: spec.holder };
+                    for (oname, sel) in [("given order", case.reselect.clone()), ("reverse member order", crate::derive::reverse_members(&case.reselect))] {
+                        let hc = sut::present(&c, Fmt::Compact, &sel, Some(&k));
+                        let hj = sut::present(&j, Fmt::Json, &sel, Some(&k));
+                        st.sub(2);
+                        let vc = match &hc {
+                            Out::Ok(p) => Some(sut::verify_full(p, Fmt::Compact, &honest_resolver, Some(&k.aud), Some(&k.nonce), None)),
+                            Out::Err(_) => None,
+                            Out::Panic(_) => continue,
+                        };
+                        let vj = match &hj {
+                            Out::Ok(p) => Some(sut::verify_full(p, Fmt::Json, &honest_resolver, Some(&k.aud), Some(&k.nonce), None)),
+                            Out::Err(_) => None,
+                            Out::Panic(_) => continue,
+                        };
+                        let same = match (&vc, &vj) {
+                            (None, None) => true,
+                            (Some(a), Some(b)) => outcome_eq(a, b),
+                            _ => false,
+                        };
+                        st.label("holder_pair_compared_with_kb");
+                        if !same {
+                            return Err(Failure::new(
+                                "transcode:holder-differs:kb",
+                                format!(
+                                    "key-bound presentations made from the two forms of the same SD-JWT with the same selection ({}) fare differently — {}\n  selection: {}\n  Compact: {} -> {}\n  JSON: {} -> {}",
+                                    oname,
+                                    t.desc,
+                                    Value::Object(sel.clone()),
+                                    hc.describe(),
+                                    vc.map(|v| v.describe()).unwrap_or_else(|| "-".into()),
+                                    hj.describe(),
+                                    vj.map(|v| v.describe()).unwrap_or_else(|| "-".into())
+                                ),
+                            ));
+                        }
+                    }
                 }
             }
         }
